@@ -231,85 +231,62 @@ fn c19_recv_fifo_pop() {
     core::mem::forget(reader);
 }
 
-/// C16: every schedule of K atomic steps of poll_recv (waiter) / recv_datagram / on_conn_error
-/// (notifiers) through the real Arc<Mutex<..>> API.
-fn reader_schedule<const K: usize>() {
-    let incoming = DatagramIncoming::new(100);
-    let reader = DatagramReader(incoming.0.clone());
-    let w = waker(0);
-    let mut cx = Context::from_waker(&w);
-    let mut queued: usize = 0; // ghost
-    let mut failed = false; // ghost
-    let mut asleep = false;
-    let mut wakes_at_poll = wakes(0);
-    let mut i = 0;
-    while i < K {
-        let choice: u8 = kani::any();
-        kani::assume(choice < 3);
-        match choice {
-            0 => {
-                let r = reader.poll_recv(&mut cx);
-                wakes_at_poll = wakes(0);
-                match &r {
-                    Poll::Pending => {
-                        assert!(queued == 0 && !failed, "Pending only when nothing is queued and the connection is alive");
-                        asleep = true;
-                    }
-                    Poll::Ready(Ok(_)) => {
-                        assert!(queued > 0 && !failed);
-                        queued -= 1;
-                        asleep = false;
-                    }
-                    Poll::Ready(Err(_)) => {
-                        assert!(failed);
-                        asleep = false;
-                    }
-                }
-                core::mem::forget(r);
-            }
-            1 => {
-                kani::assume(queued < 3);
-                let r = incoming.recv_datagram(DatagramFrame::new(true, VarInt::from_u32(2)), dgram(0, 2));
-                assert!(r.is_ok() == !failed);
-                if !failed {
-                    queued += 1;
-                }
-                core::mem::forget(r);
-            }
-            _ => {
-                incoming.on_conn_error(&conn_error(ErrorKind::Internal));
-                failed = true;
-                queued = 0;
-            }
-        }
-        i += 1;
-    }
-    let woken = wakes(0) != wakes_at_poll;
-    kani::cover!(asleep && woken && queued > 0, "sleeping reader woken by a datagram");
-    kani::cover!(asleep && woken && failed, "sleeping reader woken by the connection error");
-    kani::cover!(asleep && !woken, "still legitimately asleep");
-    if asleep && !woken {
-        assert!(queued == 0 && !failed, "no lost wake-up: datagram queued / connection failed while the reader sleeps unwoken");
-    }
-    core::mem::forget(incoming);
-    core::mem::forget(reader);
-}
-
 fn conn_error(kind: ErrorKind) -> Error {
     Error::Quic(QuicError::with_default_fty(kind, ""))
 }
 
-#[kani::proof]
-#[kani::unwind(6)]
-#[kani::stub(alloc::fmt::format, stub_fmt)]
-#[kani::stub(core::slice::index::slice_index_fail, stub_slice_index_fail)]
-#[kani::stub(std::sync::Mutex::lock, stub_mutex_lock)]
-#[kani::stub(tracing::callsite::DefaultCallsite::interest, stub_interest)]
-#[kani::stub(tracing::__macro_support::__is_enabled, stub_is_enabled)]
-#[kani::stub(tracing::Event::dispatch, stub_dispatch)]
-#[kani::stub(<std::io::Error as core::convert::From<qbase::error::Error>>::from, stub_io_from_qerr)]
-fn c16_datagram_reader_schedule_k3() {
-    reader_schedule::<3>();
+/// C16 (datagram reader), inductive formulation. Ghost `asleep` = "the reader task's last
+/// poll_recv returned Pending and its waker has not been invoked since".
+/// Invariant INV:  asleep  =>  connection alive  &&  queue empty  &&  read_waker is the task's waker.
+/// INV holds in the initial state (asleep = false) and every atomic step (one lock-protected method:
+/// poll_recv / recv_datagram / on_conn_error) from ANY state satisfying INV re-establishes it, so in
+/// every schedule of any length the reader never sleeps unwoken on a queued datagram or a failed
+/// connection. The pre-state is built directly from the private fields:
+///   failed          -> Err(e)
+///   !failed, asleep -> Ok{queue = [], read_waker = Some(task waker)}
+///   !failed, awake  -> Ok{queue = n <= 2 datagrams, read_waker = None | Some(stale task waker)}
+struct Pre {
+    incoming: DatagramIncoming,
+    n: usize,
+    failed: bool,
+    asleep: bool,
+}
+
+fn step_prestate(n: usize, failed: bool, asleep: bool, stale: bool) -> Pre {
+    let lens = [2usize, 2, 2];
+    let incoming = if failed {
+        DatagramIncoming(Arc::new(Mutex::new(Err(conn_error(ErrorKind::Internal)))))
+    } else {
+        fifo_prestate(100, n, &lens, if asleep || stale { Some(waker(0)) } else { None })
+    };
+    Pre { incoming, n, failed, asleep }
+}
+
+/// INV on the post-state.
+fn inv_holds(incoming: &DatagramIncoming, asleep: bool) -> bool {
+    if !asleep {
+        return true;
+    }
+    match incoming.0.lock().unwrap().as_ref() {
+        Ok(r) => {
+            r.rcvd_datagrams.len() == 0
+                && match r.read_waker.as_ref() {
+                    Some(w) => w.will_wake(&waker(0)),
+                    None => false,
+                }
+        }
+        Err(_) => false,
+    }
+}
+
+fn any_pre(max_n: usize) -> Pre {
+    let n: usize = kani::any();
+    let failed: bool = kani::any();
+    let asleep: bool = kani::any();
+    let stale: bool = kani::any();
+    kani::assume(n <= max_n);
+    kani::assume(!(asleep && (failed || n > 0))); // INV
+    step_prestate(n, failed, asleep, stale)
 }
 
 #[kani::proof]
@@ -321,8 +298,95 @@ fn c16_datagram_reader_schedule_k3() {
 #[kani::stub(tracing::__macro_support::__is_enabled, stub_is_enabled)]
 #[kani::stub(tracing::Event::dispatch, stub_dispatch)]
 #[kani::stub(<std::io::Error as core::convert::From<qbase::error::Error>>::from, stub_io_from_qerr)]
-fn c16_datagram_reader_schedule_k4() {
-    reader_schedule::<4>();
+fn c16_datagram_reader_step_poll() {
+    let pre = any_pre(2);
+    let reader = DatagramReader(pre.incoming.0.clone());
+    let w = waker(0);
+    let mut cx = Context::from_waker(&w);
+    let before = wakes(0);
+    let r = reader.poll_recv(&mut cx);
+    let asleep_after = match &r {
+        Poll::Pending => {
+            assert!(pre.n == 0 && !pre.failed, "Pending only when nothing is queued and the connection is alive");
+            true
+        }
+        Poll::Ready(Ok(x)) => {
+            assert!(pre.n > 0 && !pre.failed);
+            assert!(is_dgram(x, 0, 2));
+            assert!(queue_len(&pre.incoming) == pre.n - 1);
+            false
+        }
+        Poll::Ready(Err(e)) => {
+            assert!(pre.failed);
+            assert!(e.kind() == io::ErrorKind::BrokenPipe);
+            false
+        }
+    };
+    assert!(wakes(0) == before, "polling wakes nobody");
+    assert!(inv_holds(&pre.incoming, asleep_after), "a Pending poll leaves the task registered on a live, empty queue");
+    kani::cover!(asleep_after && pre.asleep, "spurious re-poll while asleep");
+    kani::cover!(asleep_after && !pre.asleep, "goes to sleep");
+    kani::cover!(pre.failed, "poll after connection error");
+    kani::cover!(pre.n == 2, "poll with two queued");
+    core::mem::forget(r);
+    core::mem::forget(pre);
+    core::mem::forget(reader);
+}
+
+#[kani::proof]
+#[kani::unwind(6)]
+#[kani::stub(alloc::fmt::format, stub_fmt)]
+#[kani::stub(core::slice::index::slice_index_fail, stub_slice_index_fail)]
+#[kani::stub(std::sync::Mutex::lock, stub_mutex_lock)]
+#[kani::stub(tracing::callsite::DefaultCallsite::interest, stub_interest)]
+#[kani::stub(tracing::__macro_support::__is_enabled, stub_is_enabled)]
+#[kani::stub(tracing::Event::dispatch, stub_dispatch)]
+fn c16_datagram_reader_step_recv() {
+    let pre = any_pre(1); // recv_datagram's wake-up logic does not depend on the queue length
+    let before = wakes(0);
+    let r = pre.incoming.recv_datagram(DatagramFrame::new(true, VarInt::from_u32(2)), dgram(60, 62));
+    assert!(r.is_ok() == !pre.failed);
+    core::mem::forget(r);
+    if !pre.failed {
+        assert!(queue_len(&pre.incoming) == pre.n + 1);
+    }
+    if pre.asleep {
+        assert!(wakes(0) == before + 1, "a datagram arriving while the reader sleeps wakes it (once)");
+    }
+    let asleep_after = pre.asleep && wakes(0) == before;
+    assert!(inv_holds(&pre.incoming, asleep_after));
+    kani::cover!(pre.asleep, "sleeping reader woken by a datagram");
+    kani::cover!(!pre.asleep && !pre.failed && pre.n == 1, "nobody asleep");
+    kani::cover!(pre.failed, "datagram after connection error");
+    core::mem::forget(pre);
+}
+
+#[kani::proof]
+#[kani::unwind(6)]
+#[kani::stub(alloc::fmt::format, stub_fmt)]
+#[kani::stub(core::slice::index::slice_index_fail, stub_slice_index_fail)]
+#[kani::stub(std::sync::Mutex::lock, stub_mutex_lock)]
+#[kani::stub(tracing::callsite::DefaultCallsite::interest, stub_interest)]
+#[kani::stub(tracing::__macro_support::__is_enabled, stub_is_enabled)]
+#[kani::stub(tracing::Event::dispatch, stub_dispatch)]
+fn c16_datagram_reader_step_error() {
+    let pre = any_pre(2);
+    let before = wakes(0);
+    pre.incoming.on_conn_error(&conn_error(ErrorKind::FlowControl));
+    if pre.asleep {
+        assert!(wakes(0) == before + 1, "the connection error wakes the sleeping reader (once)");
+    }
+    let now_failed = match pre.incoming.0.lock().unwrap().as_ref() {
+        Ok(_) => false,
+        Err(e) => e.kind() == if pre.failed { ErrorKind::Internal } else { ErrorKind::FlowControl },
+    };
+    assert!(now_failed, "the connection is failed afterwards, first error kept");
+    let asleep_after = pre.asleep && wakes(0) == before;
+    assert!(inv_holds(&pre.incoming, asleep_after));
+    kani::cover!(pre.asleep, "sleeping reader woken by the connection error");
+    kani::cover!(!pre.asleep && !pre.failed && pre.n == 2, "queued datagrams discarded");
+    kani::cover!(pre.failed, "second error");
+    core::mem::forget(pre);
 }
 
 fn any_kind() -> ErrorKind {
